@@ -117,7 +117,7 @@ SEEDS = [
     S("unit-get-default", ["C14"], PE, "conversion_dict[to_units]", "conversion_dict.get(to_units, 1)"),
     S("clamp-removed", ["C14"], PE, "x if x >= 0 else 0", "x"),
     S("to-molar-mw", ["C15"], MX, "+ (1 - self.p) / mixture.second_component.molecular_weight", "+ (1 - self.p) / mixture.first_component.molecular_weight"),
-    S("validator-open", ["C15", "C18"], MX, "if not 0 <= value <= 1", "if not 0 < value <= 1"),
+    S("validator-open", ["C15"], MX, "if not 0 <= value <= 1", "if not 0 < value <= 1"),
     # ---- C16 / C20 -------------------------------------------------------------------------------------------------------------------------
     S("shallow-copy", ["C16", "C20"], OP, "    _data = Measurements(data=list(data.data))", "    _data = copy(data)"),
     S("no-copy", ["C16", "C20"], OP, "    _data = Measurements(data=list(data.data))", "    _data = data"),
